@@ -60,6 +60,26 @@ def setup_import_path():
         raise Machinery(f"xgcm imported from {src}, expected {repo_path()}")
 
 
+class CallTimeout(Exception):
+    """a single execution of the implementation exceeded its time limit (e.g. a changed loop that never ends)"""
+
+
+def _alarm(signum, frame):
+    raise CallTimeout("execution exceeded the per-case time limit")
+
+
+def _timed_call(args):
+    import signal
+
+    fn, item, secs = args
+    signal.signal(signal.SIGALRM, _alarm)
+    signal.setitimer(signal.ITIMER_REAL, secs)
+    try:
+        return fn(item)
+    finally:
+        signal.setitimer(signal.ITIMER_REAL, 0)
+
+
 class Ctx:
     def __init__(self, pid, tier, seed):
         self.pid = pid
@@ -186,8 +206,11 @@ class Ctx:
         missed = [c["id"] for c in picked if c["id"] not in rej]
         self.extra.setdefault("corrupt_trace_selftest", []).append(
             {"module": module, "altered": len(picked), "rejected": len(picked) - len(missed), "kinds": {str(k): v for k, v in seen.items()}})
-        if missed:
+        if missed and not self.rejections:
             raise Machinery(f"corrupt-trace self-test: {module} accepted altered records {missed[:5]}")
+        if missed:
+            # the run already reports violations: they are the result; the self-test is inconclusive on such a tree
+            self.extra["corrupt_trace_selftest"][-1]["inconclusive_because_of_violations"] = missed[:5]
 
     # ---------------------------------------------------------------- bookkeeping
     def reject(self, key, what, record):
@@ -197,16 +220,17 @@ class Ctx:
         if len(self.samples) < limit:
             self.samples.append(x)
 
-    def pmap(self, fn, items, procs=16, chunksize=8):
-        """Run fn over items in forked worker processes importing the real xgcm."""
+    def pmap(self, fn, items, procs=16, chunksize=8, limit=120.0):
+        """Run fn over items in forked worker processes importing the real xgcm. Each item has a time limit: a case
+        that never returns raises CallTimeout inside fn (drivers record it as the call's outcome)."""
         items = list(items)
         if not items:
             return []
         if procs <= 1 or len(items) < 4:
             setup_import_path()
-            return [fn(x) for x in items]
+            return [_timed_call((fn, x, limit)) for x in items]
         with mp.get_context("fork").Pool(procs, initializer=setup_import_path) as pool:
-            return pool.map(fn, items, chunksize=chunksize)
+            return pool.map(_timed_call, [(fn, x, limit) for x in items], chunksize=chunksize)
 
     def cleanup(self):
         shutil.rmtree(self.scratch, ignore_errors=True)
